@@ -7,7 +7,7 @@ import z3
 
 from . import sym
 from .core import PathEnd, PyBreak, PyContinue, PyRaise, PyReturn
-from .model import BoundMethod, ClassRef, Closure, Env, PyObj
+from .model import BoundMethod, ClassRef, Closure, Env, Partial, PyObj
 from .interp import EmptyLiteral, I
 from .sym import (NONE, TAny, TBool, TBytes, TDict, TEnum, TInt, TList, TNone, TOpt, TRange, TReal, TRef, TSet, TStr,
                   TTuple, Unsupported, V)
@@ -342,6 +342,13 @@ class StmtMixin:
         env.loop_ord += 1
         contract = env.contract
         spec = (contract.loops.get(ordn) if contract else None)
+        top_c = getattr(self, "top_contract", None)
+        if top_c is not None and contract is not top_c and env.func is not None and env.func.name in getattr(top_c, "inline_loops", {}):
+            # inline_loops={"<callee name>": {ordinal: spec}} in the contract of the function UNDER VERIFICATION: loop
+            # specs for the loops of a callee that is executed inline (the clauses are evaluated in the callee's frame).
+            # Used where the callee's own loop invariant speaks about its entry state (old()), which does not exist for
+            # an inlined body, and where the caller knows what the callables it passes in modify.
+            spec = top_c.inline_loops[env.func.name].get(ordn, spec)
         if spec is None and contract is not None and "default" in contract.loops:
             # (C03) loops={"default": dict(invariant=[...])}: the rule for a loop that has no entry of its own (a loop
             # the contract's author did not know about): with invariant [] it is the trivially sound over-approximation
@@ -515,6 +522,8 @@ class StmtMixin:
         self.heap.dirty = []
         pre_locals = dict(env.locals)
         self.havoc_for_loop(st, env, spec)
+        self._havoc_closure_nonlocals(env)
+        havocked_pairs = list(self.heap.dirty)  # (field, object) pairs: the object matters to the frame checks (fresh objects are exempt)
         havocked_keys = {k for k, _r in self.heap.dirty}
         self.heap.dirty = []
         env.locals[idxname] = sym.fresh(TInt, self.ctx.fresh_name(idxname))
@@ -551,7 +560,7 @@ class StmtMixin:
             finally:
                 self.loop_stack.pop()
                 body_dirty = self.heap.dirty
-                self.heap.dirty = outer_dirty + [(k, None) for k in havocked_keys] + body_dirty
+                self.heap.dirty = outer_dirty + havocked_pairs + body_dirty
             if back:
                 # frame check of the loop rule: whatever the body changed must have been havocked at the loop head
                 # (otherwise the "arbitrary iteration" would start from a state that is too specific)
@@ -590,8 +599,31 @@ class StmtMixin:
                 raise PathEnd()
             # break: fall through to code after the loop (no else clause)
             return
-        # loop exit
+        # loop exit (the writes recorded before the loop and the head havoc stay recorded for the enclosing frame checks)
+        self.heap.dirty = outer_dirty + havocked_pairs + self.heap.dirty
         self.exec_block(st.orelse, env)
+
+    def _havoc_closure_nonlocals(self, env):
+        """Loop head (added for the TLS parsers): a nested function that is a local / parameter of the frame the loop runs
+        in (e.g. `func` of tls.pull_list, possibly wrapped in functools.partial) may be called by the body and rebind
+        `nonlocal` variables of ITS defining scope - those variables are havocked here like every other location the body
+        may change, and recorded so that CallMixin.call_closure accepts the call.  (The value seen after the loop is the
+        havocked one: sound.)"""
+        from .calls import nonlocal_names
+
+        hv = self.__dict__.setdefault("nonlocal_havocked", set())
+        for v in list(env.locals.values()):
+            while isinstance(v, Partial):
+                v = v.fn
+            if isinstance(v, Closure) and not isinstance(v.node, ast.Lambda):
+                for name in nonlocal_names(v.node):
+                    old = v.env.locals.get(name)
+                    if isinstance(old, V):
+                        nv = sym.fresh(old.ty, self.ctx.fresh_name(name))
+                        for f in sym.wf(nv):
+                            self.ctx.assume(f)
+                        v.env.locals[name] = nv
+                        hv.add((id(v.env.locals), name))
 
     def havoc_for_loop(self, st, env, spec):
         names, fields, whole = assigned_in(st.body, env)
@@ -630,6 +662,16 @@ class StmtMixin:
                 nv = V(ty, z3.If(absent, self.heap.read(owner, f, ty, b.t).t, nv.t))
             self.heap.write(owner, f, ty, b.t, nv.t)
         for extra in spec.get("modifies", []):
+            if extra.startswith("top:"):
+                # "top:<loc>" (loop specs supplied through inline_loops): the location is named in the frame of the
+                # function UNDER VERIFICATION (e.g. the message object a parser's item closure fills in), not in the
+                # frame of the inlined callee that contains the loop
+                try:
+                    self.havoc_location(extra[4:], self.top_env)
+                except Unsupported as u:
+                    if not str(u).startswith("unbound name "):
+                        raise  # (a base that is not bound yet denotes no object: nothing to havoc)
+                continue
             if extra == "<everything>":
                 self.havoc_all_but([])  # the body calls a function whose contract says modifies=['<everything>']
                 continue
@@ -851,6 +893,9 @@ class StmtMixin:
 
     def s_FunctionDef(self, st, env):
         env.locals[st.name] = Closure(st, env)
+
+    def s_Nonlocal(self, st, env):
+        pass  # binding semantics implemented in CallMixin.call_closure (write-back to the defining scope)
 
     def s_Import(self, st, env):
         pass
